@@ -244,5 +244,61 @@ def run(ctx):
                   key='R4|compare|early exit')
     else:
         ctx.unrecognised('R4', 'Group::compare: %d loops' % len(heads))
+    # ---- R5 the pid -> rank table answers MPI_UNDEFINED for every pid that set_mapping never stored ---------------------------------------------------
+    ctx.rule('R5', 'Group::pid_to_rank_map_ is a sentinel-filled table: it grows only by resize(n, MPI_UNDEFINED), is indexed for writing only by set_mapping, and rank() answers '
+             'MPI_UNDEFINED for a pid beyond its size: a non-member never reads as a rank', 3)
+    GQ = 'simgrid::smpi::Group'
+    TAB = GQ + '::pid_to_rank_map_'
+    UNDEF5 = ('int', -333)
+
+    def lit(t):
+        while t[0] in ('cast', 'conv'):
+            t = t[2]
+        if t[0] == 'un' and t[1] == '-' and t[2][0] == 'int':
+            return ('int', -t[2][1])
+        return t
+    n5 = 0
+    for u in lib.field_uses(P, TAB):
+        who = u.fn['q'].replace('simgrid::smpi::', '')
+        if u.kind == 'call' and u.method in ('size', 'empty', 'begin', 'end', 'cbegin', 'cend', 'data'):
+            continue
+        n5 += 1
+        if u.kind == 'call' and u.method == 'resize':
+            args = [ex.Norm(u.fn)(a) for a in (u.parent.get('a') or ())]
+            ok = len(args) == 2 and lit(args[1]) == UNDEF5
+            ctx.check(ok, 'R5', '%s: pid_to_rank_map_.resize fills the new slots with MPI_UNDEFINED' % who, where(u.fn, u.line),
+                      'resize(%s): the new slots hold %s, so a pid that is not in the group reads as rank %s' % (', '.join(ex.pretty(a) for a in args), 'the value-initialised 0' if len(args) < 2 else ex.pretty(args[1]), '0' if len(args) < 2 else ex.pretty(args[1])) if not ok else '',
+                      key='R5|%s|resize fill' % who.rsplit('::', 1)[-1])
+        elif u.kind == 'call' and u.method in ('operator[]', 'at'):
+            # reads everywhere, writes only in set_mapping
+            pa = u.parent
+            continue
+        elif u.kind == 'call' and u.method in ('assign', 'push_back', 'emplace_back', 'insert', 'emplace', 'clear', 'reserve', 'swap', 'erase', 'pop_back'):
+            ctx.check(u.method in ('reserve',), 'R5', '%s: pid_to_rank_map_.%s' % (who, u.method), where(u.fn, u.line), 'the table is grown or changed outside the sentinel-filling resize', key='R5|%s|%s' % (who.rsplit('::', 1)[-1], u.method))
+        elif u.kind == 'write':
+            ok = u.op == 'init' or who.endswith('Group::Group') or who.endswith('Group::operator=')
+            ctx.check(ok, 'R5', '%s assigns pid_to_rank_map_ as a whole' % who, where(u.fn, u.line), 'copy of another group\'s table' if ok else 'whole-table assignment outside the copy constructor', key='R5|%s|table assigned' % who.rsplit('::', 1)[-1])
+    ctx.require(n5 >= 3, 'R5', 'uses of pid_to_rank_map_ not found (%d)' % n5)
+    # element stores
+    for f in sorted(P.fns.values(), key=lambda f: f['key']):
+        if not f.get('blocks'):
+            continue
+        vv = A.view(f)
+        for eid in range(len(f['elems'])):
+            for e in vv.events_of(eid):
+                if e.kind == 'assign' and e.eid == eid and TAB in repr(e.lhs) and e.lhs[0] in ('call', 'idx'):
+                    ctx.check(f['q'] == GQ + '::set_mapping', 'R5', '%s stores an element of pid_to_rank_map_' % f['q'].replace('simgrid::smpi::', ''), where(f, e.line), '', key='R5|%s|element store' % f['q'].rsplit('::', 1)[-1])
+    rk = P.fn(GQ + '::rank')
+    vr = A.view(rk)
+    conds = [e for eid in range(len(rk['elems'])) for e in vr.events_of(eid) if e.kind == 'assign' and e.rhs[0] == 'cond' and TAB in repr(e.rhs)]
+    okr = bool(conds)
+    for e in conds:
+        c, a_, b_ = e.rhs[1], e.rhs[2], e.rhs[3]
+        at, pol = ex.atom(c)
+        inrange = at[0] == 'bin' and at[1] in ('<', '>=') and 'size' in repr(at)
+        # in range -> table element, else MPI_UNDEFINED
+        elem, other = (a_, b_) if (at[1] == '<') == pol else (b_, a_)
+        okr = okr and inrange and TAB in repr(elem) and lit(other) == UNDEF5
+    ctx.check(okr, 'R5', 'Group::rank: a pid beyond the table reads MPI_UNDEFINED, otherwise the table element', where(rk), '%d lookup(s)' % len(conds), key='R5|rank|out of range')
     ctx.assume('MPI_UNDEFINED is the literal -333 of smpi.h; message isolation between communicators is the communicator atom of C28-R1')
     return EXPLANATION
